@@ -32,10 +32,14 @@ Predicted(e) == ~e.open /\ Expected(e)[1] # "unk"
 Extracted == /\ l <= Len(Rec) /\ Rec[l].ev = "extract" /\ EventOK(Rec[l]) /\ l' = l + 1
              /\ TLCSet(2, TLCGet(2) + (IF Predicted(Rec[l]) THEN 1 ELSE 0))                                   \* events whose row the model predicted
              /\ TLCSet(3, TLCGet(3) + (IF Predicted(Rec[l]) /\ Expected(Rec[l])[1] = "row" THEN 1 ELSE 0))    \* ... and predicted to be a row
-TraceNext == Extracted
+\* C06 as a law between two batch runs of the real code over one definition: all the recorded lines / only the lines that gave a row (as the extraction events
+\* above say, each of them judged by the model): every kind of statement prints the same
+NoiseLaw == /\ l <= Len(Rec) /\ Rec[l].ev = "noiselaw" /\ Rec[l].all = Rec[l].rows /\ Rec[l].all.st \in {"ok", "err"} /\ l' = l + 1
+            /\ TLCSet(2, TLCGet(2) + 1)
+TraceNext == Extracted \/ NoiseLaw
 TraceSpec == TraceInit /\ [][TraceNext]_l
 TraceUnfinished == l <= Len(Rec) \/ (PrintT(<<"TRACE-STATS", TLCGet(2), TLCGet(3)>>) /\ FALSE)
 TrackProgress == TLCSet(1, IF TLCGet(1) < l THEN l ELSE TLCGet(1))
 TraceRejectedAt == PrintT(<<"TRACE-REJECTED", "first unmatched event", TLCGet(1),
-                            IF TLCGet(1) <= Len(Rec) THEN <<Rec[TLCGet(1)], "model says", Expected(Rec[TLCGet(1)])>> ELSE <<"none">>>>)
+                            IF TLCGet(1) <= Len(Rec) THEN <<Rec[TLCGet(1)], "model says", IF Rec[TLCGet(1)].ev = "extract" THEN Expected(Rec[TLCGet(1)]) ELSE <<"the two runs print the same">>>> ELSE <<"none">>>>)
 =============================================================================
